@@ -25,6 +25,7 @@ CHECKS = {
     'C08': 'checks_rt.check_c08',
     'C12': 'checks_runs.check_c12',
     'C13': 'checks_wire.check_c13',
+    'C16': 'checks_load.check_c16',
     'C18': 'checks_misc.check_c18',
     'C19': 'checks_misc.check_c19',
     'C20': 'checks_misc.check_c20',
